@@ -20,9 +20,16 @@ Projection of a state:  {"ivs": [interval...], "items": [...], "al": [...]}
   items:    offset-keyed table entries {t,kk,own,d,v}: table, key kind
             ("bi" interval / "blk" block), owner id, displacement, value
   al:       the alignment mapping handed to the library [{b,a}]
+
+Variant fields: op, mod (module ISA or "none"), fmt, tab (default aux tables /
+custom ``tables``), al (alignment as argument / aux table / none), nop, grow
+(bytes a rewrite appends to the first interval between split and join), late
+(an annotation a rewrite adds to the last interval), ord (order in which the
+annotation entries are inserted into the unordered offset tables).
 """
 import json
 import os
+import random
 import sys
 import traceback
 from typing import Dict, List, Optional
@@ -148,7 +155,17 @@ def render(case: dict, v: dict) -> World:
     # offset-keyed annotations
     if v["tab"] == "custom":
         w.custom["x:com"] = OffsetMapping()
-    for it in case["items"]:
+    # The tables are unordered containers: the entries are inserted in the
+    # order the variant asks for (ascending / descending / seeded shuffle).
+    items = list(case["items"])
+    order = v.get("ord", "asc")
+    if order == "desc":
+        items.reverse()
+    elif order == "shuf":
+        random.Random(
+            f"{os.environ.get('VERIF_SEED', '0')}:{case.get('id', '')}:{v.get('mod')}:{v.get('tab')}"
+        ).shuffle(items)
+    for it in items:
         key_node = bi if it["kk"] == "bi" else w.blocks[it["b"] - 1]
         key = gtirb.Offset(key_node, it["d"])
         val = item_value(it["t"], it["kk"], it["b"], it["d"])
